@@ -368,6 +368,9 @@ func (g *generator) expr() node {
 			case 2:
 				o := &object{}
 				o.props = append(o.props, objProp{shorthand: g.ref()}, objProp{key: "p", value: g.ref()})
+				if g.chance("groupmethod", 2) {
+					o.props = append(o.props, g.methodProp())
+				}
 				gr.items = append(gr.items, o)
 			case 3:
 				gr.items = append(gr.items, &array{items: []node{g.ref(), g.ref()}})
@@ -378,9 +381,12 @@ func (g *generator) expr() node {
 	case 10:
 		o := &object{}
 		for n := rapid.IntRange(0, 3).Draw(g.t, "nprops"); n > 0; n-- {
-			if g.chance("shorthand", 2) {
+			switch rapid.IntRange(0, 4).Draw(g.t, "propkind") {
+			case 0, 1:
 				o.props = append(o.props, objProp{shorthand: g.ref()})
-			} else {
+			case 2:
+				o.props = append(o.props, g.methodProp())
+			default:
 				o.props = append(o.props, objProp{key: "q", value: g.expr()})
 			}
 		}
@@ -420,6 +426,29 @@ func (g *generator) expr() node {
 		return ce
 	}
 	return g.ref()
+}
+
+// methodProp: a method, getter or setter of an object literal; its body mentions outer names inside literals
+func (g *generator) methodProp() objProp {
+	g.classes["object-method"]++
+	kind := rapid.SampledFrom([]string{"", "", "get", "set"}).Draw(g.t, "accessor")
+	f := g.function("method")
+	switch kind {
+	case "get":
+		f.params, f.rest = nil, nil
+	case "set":
+		f.rest = nil
+		if len(f.params) == 0 {
+			f.params = []patElem{{target: &decl{name: "v"}}}
+		}
+		f.params = f.params[:1]
+		f.params[0].def = nil
+	}
+	if g.chance("literalbody", 2) {
+		// the shapes a speculative arrow-head parse treats specially: bare names inside array and object literals
+		f.body = append(f.body, &exprStmt{e: &array{items: []node{g.ref(), &object{props: []objProp{{shorthand: g.ref()}, {key: "q", value: g.ref()}}}}}})
+	}
+	return objProp{key: "m", method: f, accessor: kind}
 }
 
 func (g *generator) block(n int) []node {
